@@ -318,6 +318,8 @@ class SyndromeLookupDecoder(BaseBlockDecoder[LinearBlockCodeEncoder]):
 
         # For tensors with leading dimensions, process blockwise
         def decode_block(r_block):
+            # apply_blockwise passes (..., blocks, n): decode every block of every row
+            r_block = r_block.reshape(-1, self.code_length)
             batch_size = r_block.shape[0]
             decoded = torch.zeros(batch_size, self.code_dimension, dtype=received.dtype, device=received.device)
             errors = torch.zeros_like(r_block)
@@ -344,24 +346,5 @@ class SyndromeLookupDecoder(BaseBlockDecoder[LinearBlockCodeEncoder]):
 
         # Apply decoding blockwise
         result = apply_blockwise(received, self.code_length, decode_block)
-
-        # If we're returning errors and handling multi-block tensors
-        # apply_blockwise will return a tuple that we need to handle specially
-        if return_errors and L > self.code_length:
-            decoded_parts = []
-            error_parts = []
-
-            # Handle batch dimension cases
-            *_, blocks, _ = received.shape
-            for i in range(blocks):
-                decoded, errors = result[:, i]
-                decoded_parts.append(decoded)
-                error_parts.append(errors)
-
-            # Stack the parts along the appropriate dimension
-            decoded_tensor = torch.cat(decoded_parts, dim=-1)
-            error_tensor = torch.cat(error_parts, dim=-1)
-
-            return decoded_tensor, error_tensor
 
         return result
